@@ -68,6 +68,11 @@ def cases(tier, seed):
                                            "dense_prob": 0.9, "pool": None, "crowd_prob": 0.35}):
         spec["kind"] = "run"
         out.append(spec)
+    # long stretches / whole chains of the real proteins
+    for spec in workload.long_cases(seed, 7 if tier == "quick" else 420, opts_fn=opts,
+                                    long_max=150 if tier == "quick" else 400):
+        spec["kind"] = "run"
+        out.append(spec)
     # debump stress: long side chains hemmed in by many obstacle waters => multi-round debumping where some rounds
     # improve and later ones do not
     nstress = 48 if tier == "quick" else 6000
